@@ -88,7 +88,37 @@ func TestC06JumpSweep(t *testing.T) {
 	sub.Count("keys-checked", int(keys))
 	if lab.Thorough() {
 		sub.Exhaustive()
+		return
 	}
+	// Quick tier, boundary-directed part: the jump step divides 2^31 by (state>>33)+1 and multiplies by
+	// b+1; the only keys on which narrower arithmetic can go wrong are those where one of the first
+	// generator states has a tiny high part (about 2^-26 of all keys). They are found with a
+	// multiplication-only scan of the whole 32-bit key space (split over the shards) and then
+	// checked like every other key.
+	const lcg = 2862933555777941757
+	lo := uint64(lab.Shard()) << 32 / uint64(lab.Shards())
+	hi := uint64(lab.Shard()+1) << 32 / uint64(lab.Shards())
+	cands := 0
+	for k := lo; k < hi; k++ {
+		st := k
+		hit := false
+		for i := 0; i < 6; i++ {
+			st = st*lcg + 1
+			if st>>33 < 32 {
+				hit = true
+				break
+			}
+		}
+		if !hit {
+			continue
+		}
+		cands++
+		if n, msg := sweepKey(k); msg != "" {
+			lab.Violation(t, name, sweepFail{Key: k}, "n=%d (boundary candidate): %s", n, msg)
+		}
+	}
+	sub.Case(map[string]any{"boundary_scan_from": lo, "to": hi, "candidates": cands}, true, "boundary-scan")
+	sub.Count("boundary-candidates-checked", cands)
 }
 
 func fnv32a(s string) uint32 {
